@@ -46,3 +46,13 @@ class InterpretProcessInfo:
 
     def pre_keys(info):
         return ('state' in info and 'start' in info and 'stop' in info and 'now' in info and 'spawnerr' in info)
+
+
+@external('ast.parse')
+class AstParse:
+    """returns a Module tree conforming to the ASDL of the running interpreter (contracts/shapes.py ast_model: finite,
+    tree-shaped, typed fields) or raises SyntaxError; very deep sources make the 3.12 parser raise RecursionError
+    ('not ' * 3000 + '"a"') or MemoryError ('-' * 100000 + '1') instead - observed natively"""
+    returns = 'AstModule'
+    params = ['source']
+    raises = ('SyntaxError', 'RecursionError', 'MemoryError')
